@@ -1,5 +1,230 @@
-import Smooth.Model.Surface
+/-
+C16 — Ill-formed expressions are rejected at construction.
+
+The checked constructors of Model/Surface.lean take arbitrary Python values (`PyVal`: an expression,
+a number — `int` or `float` —, a string, anything else).  Every theorem is an *iff* for acceptance:
+the constructor answers an expression exactly on the documented arguments, and the expression is the
+freshly built node carrying exactly the operands and the parameter that were passed (`e = mkNPow u k`
+etc.: parameters are reported back as given; an integral float `n` is stored as that integer).
+Companion theorems name the exception raised otherwise (`DomainError` for `n` and bases, the generic
+`Exception` for operands and names), in the order the implementation checks.
+`WF` (Real/Spec.lean) is well-formedness: n ≥ 1, bases positive, logarithm base ≠ 1, hereditarily.
+-/
+import Smooth.Proofs.Construct
+import Smooth.Proofs.WFSym
+
 namespace Smooth
-/-- placeholder while the property file is being written -/
-theorem C16_placeholder : (1 : Nat) = 1 := rfl
+open Expr
+
+/-! ### acceptance, exactly -/
+
+/-- **C16.** `NthPower(inner, n)` is accepted exactly for an expression operand and `n` a positive
+integer (as `int` or integral `float`); the stored parameter is that integer. -/
+theorem nthPower_ok_iff (inner n : PyVal ℝ) (e : Expr ℝ) :
+    mkNthPowerChecked realNum inner n = .ok e ↔
+      ∃ (u : Expr ℝ) (k : ℕ), inner = .expr u ∧ n = .num (k : ℝ) ∧ 1 ≤ k ∧ e = mkNPow u k :=
+  mkNthPowerChecked_ok_iff inner n e
+
+/-- the same for `NthRoot(inner, n)` -/
+theorem nthRoot_ok_iff (inner n : PyVal ℝ) (e : Expr ℝ) :
+    mkNthRootChecked realNum inner n = .ok e ↔
+      ∃ (u : Expr ℝ) (k : ℕ), inner = .expr u ∧ n = .num (k : ℝ) ∧ 1 ≤ k ∧ e = mkNRoot u k :=
+  mkNthRootChecked_ok_iff inner n e
+
+/-- `Exponential(inner, base)` is accepted exactly for an expression operand and a positive base -/
+theorem exponential_ok_iff (inner : PyVal ℝ) (b : ℝ) (e : Expr ℝ) :
+    mkExponentialChecked realNum inner b = .ok e ↔
+      ∃ u : Expr ℝ, inner = .expr u ∧ 0 < b ∧ e = mkExp u b :=
+  mkExponentialChecked_ok_iff inner b e
+
+/-- `Logarithm(inner, base)` : an expression operand, a positive base, and base ≠ 1 -/
+theorem logarithm_ok_iff (inner : PyVal ℝ) (b : ℝ) (e : Expr ℝ) :
+    mkLogarithmChecked realNum inner b = .ok e ↔
+      ∃ u : Expr ℝ, inner = .expr u ∧ 0 < b ∧ b ≠ 1 ∧ e = mkLog u b :=
+  mkLogarithmChecked_ok_iff inner b e
+
+/-- `Variable(name)` : a non-empty name made of word characters only (any number instance) -/
+theorem variable_ok_iff {α : Type} (isWord : Char → Bool) (name : String) (e : Expr α) :
+    mkVariableChecked isWord name = .ok e ↔
+      name ≠ "" ∧ name.toList.all isWord = true ∧ e = mkVar name :=
+  mkVariableChecked_ok_iff isWord name e
+
+/-- the unary classes (`Negation`, `Reciprocal`, `Cosine`, `Sine`: `mk` is the node builder) accept
+exactly an expression operand -/
+theorem unary_ok_iff {α : Type} (mk : Expr α → Expr α) (inner : PyVal α) (e : Expr α) :
+    mkUnaryChecked mk inner = .ok e ↔ ∃ u, inner = .expr u ∧ e = mk u :=
+  mkUnaryChecked_ok_iff mk inner e
+
+/-- the binary classes (`Minus`, `Divide`, `Power`) accept exactly two expression operands, kept in
+order -/
+theorem binary_ok_iff {α : Type} (mk : Expr α → Expr α → Expr α) (l r : PyVal α) (e : Expr α) :
+    mkBinaryChecked mk l r = .ok e ↔ ∃ a b, l = .expr a ∧ r = .expr b ∧ e = mk a b :=
+  mkBinaryChecked_ok_iff mk l r e
+
+/-- the n-ary classes (`Add`, `Multiply`) accept exactly a (possibly empty) list of expression
+operands, kept in order -/
+theorem nary_ok_iff {α : Type} (mk : List (Expr α) → Expr α) (vs : List (PyVal α)) (e : Expr α) :
+    mkNaryChecked mk vs = .ok e ↔ ∃ us, vs = us.map PyVal.expr ∧ e = mk us :=
+  mkNaryChecked_ok_iff mk vs e
+
+/-! ### which exception -/
+
+/-- `n` that is not a positive integer: `DomainError`, before the operand is looked at -/
+theorem nth_bad_n (inner : PyVal ℝ) {n : PyVal ℝ} (h : ¬ GoodN n) :
+    mkNthPowerChecked realNum inner n = .error .domain ∧
+      mkNthRootChecked realNum inner n = .error .domain :=
+  ⟨mkNthPowerChecked_badN inner h, mkNthRootChecked_badN inner h⟩
+
+/-- a good `n` but an operand that is not an expression: the generic `Exception` -/
+theorem nth_bad_operand {inner n : PyVal ℝ} (hn : GoodN n) (hv : inner.NotExpr) :
+    mkNthPowerChecked realNum inner n = .error .usage ∧
+      mkNthRootChecked realNum inner n = .error .usage :=
+  ⟨mkNthPowerChecked_notExpr hn hv, mkNthRootChecked_notExpr hn hv⟩
+
+/-- a number is a bad `n` exactly when it is not a positive integer; non-numbers always are -/
+theorem goodN_num_iff (x : ℝ) : GoodN (.num x) ↔ IsPosInt x := by
+  constructor
+  · rintro ⟨k, hk, h⟩; injection h with h; exact ⟨k, hk, h⟩
+  · rintro ⟨k, hk, rfl⟩; exact ⟨k, hk, rfl⟩
+
+/-- a non-positive base: `DomainError` (after the operand check) -/
+theorem base_nonpos (u : Expr ℝ) {b : ℝ} (hb : b ≤ 0) :
+    mkExponentialChecked realNum (.expr u) b = .error .domain ∧
+      mkLogarithmChecked realNum (.expr u) b = .error .domain :=
+  ⟨mkExponentialChecked_badBase u hb, mkLogarithmChecked_badBase u (Or.inl hb)⟩
+
+/-- logarithm base one: `DomainError` -/
+theorem log_base_one (u : Expr ℝ) : mkLogarithmChecked realNum (.expr u) 1 = .error .domain :=
+  mkLogarithmChecked_badBase u (Or.inr rfl)
+
+/-- an operand that is not an expression: the generic `Exception`, whatever the base -/
+theorem base_bad_operand {inner : PyVal ℝ} (b : ℝ) (hv : inner.NotExpr) :
+    mkExponentialChecked realNum inner b = .error .usage ∧
+      mkLogarithmChecked realNum inner b = .error .usage :=
+  ⟨mkExponentialChecked_notExpr b hv, mkLogarithmChecked_notExpr b hv⟩
+
+/-- an empty name, or a name with a non-word character: the generic `Exception` -/
+theorem variable_reject {α : Type} (isWord : Char → Bool) (name : String)
+    (h : name = "" ∨ name.toList.all isWord = false) :
+    (mkVariableChecked isWord name : R (Expr α)) = .error .usage :=
+  mkVariableChecked_reject isWord name h
+
+/-- a non-expression operand of a unary / binary (either side) / n-ary (any position) class: the
+generic `Exception` -/
+theorem operand_reject {α : Type} {v : PyVal α} (hv : v.NotExpr) :
+    (∀ mk : Expr α → Expr α, mkUnaryChecked mk v = .error .usage) ∧
+    (∀ (mk : Expr α → Expr α → Expr α) (r : PyVal α), mkBinaryChecked mk v r = .error .usage) ∧
+    (∀ (mk : Expr α → Expr α → Expr α) (a : Expr α), mkBinaryChecked mk (.expr a) v = .error .usage) ∧
+    (∀ (mk : List (Expr α) → Expr α) (vs : List (PyVal α)), v ∈ vs →
+      mkNaryChecked mk vs = .error .usage) :=
+  ⟨fun mk => mkUnaryChecked_notExpr mk hv, fun mk r => mkBinaryChecked_notExpr_left mk r hv,
+    fun mk a => mkBinaryChecked_notExpr_right mk a hv,
+    fun mk _ hmem => mkNaryChecked_notExpr mk hmem hv⟩
+
+/-! ### consequently: everything that can be built is well formed -/
+
+/-- **C16 (`mk_WF`).** Whatever a constructor accepts, on operands that are well formed, is well
+formed.  (`v.WFArg`: if the Python value `v` is an expression, it is `WF`.) -/
+theorem mk_WF :
+    (∀ v : ℝ, WF (mkConst v)) ∧
+    (∀ (isWord : Char → Bool) (name : String) (e : Expr ℝ),
+      mkVariableChecked isWord name = .ok e → WF e) ∧
+    (∀ (c : UnaryClass) (inner : PyVal ℝ) (e : Expr ℝ), inner.WFArg →
+      mkUnaryChecked c.mk inner = .ok e → WF e) ∧
+    (∀ (c : BinaryClass) (l r : PyVal ℝ) (e : Expr ℝ), l.WFArg → r.WFArg →
+      mkBinaryChecked c.mk l r = .ok e → WF e) ∧
+    (∀ (c : NaryClass) (vs : List (PyVal ℝ)) (e : Expr ℝ), (∀ v ∈ vs, PyVal.WFArg v) →
+      mkNaryChecked c.mk vs = .ok e → WF e) ∧
+    (∀ (inner n : PyVal ℝ) (e : Expr ℝ), inner.WFArg →
+      mkNthPowerChecked realNum inner n = .ok e → WF e) ∧
+    (∀ (inner n : PyVal ℝ) (e : Expr ℝ), inner.WFArg →
+      mkNthRootChecked realNum inner n = .ok e → WF e) ∧
+    (∀ (inner : PyVal ℝ) (b : ℝ) (e : Expr ℝ), inner.WFArg →
+      mkExponentialChecked realNum inner b = .ok e → WF e) ∧
+    (∀ (inner : PyVal ℝ) (b : ℝ) (e : Expr ℝ), inner.WFArg →
+      mkLogarithmChecked realNum inner b = .ok e → WF e) :=
+  ⟨mkConst_WF, mkVariableChecked_WF, mkUnaryChecked_WF, mkBinaryChecked_WF, mkNaryChecked_WF,
+    mkNthPowerChecked_WF, mkNthRootChecked_WF, mkExponentialChecked_WF, mkLogarithmChecked_WF⟩
+
+/-- **C16.** By induction over how it was built (`Constructible`, Proofs/Construct.lean: the fifteen
+checked constructors and the six operators, on arbitrary Python values whose expression operands were
+built the same way): every expression that can be built is well formed. -/
+theorem constructible_WF (isWord : Char → Bool) (e : Expr ℝ) (h : Constructible isWord e) : WF e :=
+  h.wf
+
+/-- and the model's executable node check `wfNode` holds of every well-formed node whose name (if it
+is a variable) passed the name check -/
+theorem wfNode_holds (isWord : Char → Bool) {e : Expr ℝ} (h : WF e)
+    (hvar : ∀ f x, e = .var f x → x ≠ "" ∧ x.toList.all isWord = true) :
+    wfNode realNum isWord e = true := wfNode_of_WF isWord h hvar
+
+/-! ### the derivative builders keep well-formedness -/
+
+/-- forward symbolic mode: `_synthetic_partial` of a well-formed expression is well formed -/
+theorem symFwd_WF (x : String) (e : Expr ℝ) (h : WF e) : WF (symFwd realNum x e) :=
+  WF_symFwd x e h
+
+/-- reverse symbolic mode: every partial reported by `_synthetic_partials()` is well formed -/
+theorem syntheticPartials_WF (e : Expr ℝ) (h : WF e) :
+    ∀ p ∈ syntheticPartials realNum e, WF p.2 := WF_syntheticPartials e h
+
+/-! ### non-vacuity -/
+
+/-- `NthPower(x, 3.0)` stores the integer 3; `NthRoot` likewise -/
+example :
+    mkNthPowerChecked realNum (.expr (mkVar "x")) (.num 3) = .ok (mkNPow (mkVar "x") 3) ∧
+    mkNthRootChecked realNum (.expr (mkVar "x")) (.num 3) = .ok (mkNRoot (mkVar "x") 3) := by
+  constructor
+  · exact (nthPower_ok_iff _ _ _).mpr ⟨mkVar "x", 3, rfl, by norm_num, by norm_num, rfl⟩
+  · exact (nthRoot_ok_iff _ _ _).mpr ⟨mkVar "x", 3, rfl, by norm_num, by norm_num, rfl⟩
+
+/-- bad `n`: a non-number, zero, a half -/
+example : ¬ GoodN (.str "3" : PyVal ℝ) ∧ ¬ GoodN (.num (0 : ℝ)) ∧ ¬ GoodN (.num (1 / 2 : ℝ)) := by
+  refine ⟨?_, ?_, ?_⟩
+  · rintro ⟨k, _, h⟩; cases h
+  · rw [goodN_num_iff]
+    have := not_isPosInt_of_nonpos (j := 0) (by norm_num); simpa using this
+  · rw [goodN_num_iff]
+    apply not_isPosInt_of_not_int
+    rintro ⟨j, hj⟩
+    have h2 : ((2 * j : ℤ) : ℝ) = ((1 : ℤ) : ℝ) := by push_cast; rw [hj]; norm_num
+    have : 2 * j = 1 := by exact_mod_cast h2
+    omega
+
+/-- `Exponential(x, 2)`, `Logarithm(x, 2)` are accepted; base `e` is legal -/
+example :
+    mkExponentialChecked realNum (.expr (mkVar "x")) 2 = .ok (mkExp (mkVar "x") 2) ∧
+    mkLogarithmChecked realNum (.expr (mkVar "x")) 2 = .ok (mkLog (mkVar "x") 2) ∧
+    mkLogarithmChecked realNum (.expr (mkVar "x")) (Real.exp 1) =
+      .ok (mkLog (mkVar "x") (Real.exp 1)) :=
+  ⟨(exponential_ok_iff _ _ _).mpr ⟨_, rfl, by norm_num, rfl⟩,
+    (logarithm_ok_iff _ _ _).mpr ⟨_, rfl, by norm_num, by norm_num, rfl⟩,
+    (logarithm_ok_iff _ _ _).mpr ⟨_, rfl, Real.exp_pos 1, exp_one_ne_one, rfl⟩⟩
+
+/-- a name check that accepts something and rejects something -/
+example :
+    (mkVariableChecked (fun c => c.isAlphanum || c == '_') "x_1" : R (Expr ℝ)) = .ok (mkVar "x_1") ∧
+    (mkVariableChecked (fun c => c.isAlphanum || c == '_') "x y" : R (Expr ℝ)) = .error .usage ∧
+    (mkVariableChecked (fun c => c.isAlphanum || c == '_') "" : R (Expr ℝ)) = .error .usage := by
+  refine ⟨(variable_ok_iff _ _ _).mpr ⟨by decide, by decide, rfl⟩,
+    variable_reject _ _ (Or.inr (by decide)), variable_reject _ _ (Or.inl rfl)⟩
+
+/-- a constructible (hence well-formed) expression using an operator, a parameterised class and a
+variable: `Logarithm(x ** 2, base = 2)` -/
+example : Constructible (fun c => c.isAlphanum || c == '_')
+    (mkLog (mkNPow (mkVar "x") 2) 2) := by
+  have hx : Constructible (fun c => c.isAlphanum || c == '_') (mkVar "x" : Expr ℝ) :=
+    .var (name := "x") ((variable_ok_iff _ _ _).mpr ⟨by decide, by decide, rfl⟩)
+  have hp : Constructible (fun c => c.isAlphanum || c == '_') (mkNPow (mkVar "x") 2 : Expr ℝ) :=
+    .opPow (v := .num 2) hx (fun u h => by cases h)
+      ((opPow_num_ok_iff _ _ _).mpr ⟨2, by norm_num, by norm_num, rfl⟩)
+  exact .logarithm (inner := .expr _) (b := 2) (fun u h => by injection h with h; subst h; exact hp)
+    ((logarithm_ok_iff _ _ _).mpr ⟨_, rfl, by norm_num, by norm_num, rfl⟩)
+
+/-- the hypothesis of `symFwd_WF` / `syntheticPartials_WF` on a tree exercising every parameterised
+formula -/
+example : WF (mkMul [mkNRoot (mkVar "x") 3, mkExp (mkVar "y") 2, mkLog (mkNPow (mkVar "x") 2) 10,
+    mkPow (mkVar "x") (mkVar "y")]) := by
+  simp [WF, WFList]
+
 end Smooth
